@@ -33,6 +33,10 @@ def plan(tier):
     for q in list(qs):
         if q.name.startswith(('sbox:', 'round:')) or (tier == 'thorough' and q.name.startswith(('e2e:', 'sched:'))):
             q2 = copy.copy(q); q2.name = q.name + ':w32'; q2.cfg = {'64BIT': 0}; q2.desc = q.desc + ' [32-bit word path, SKINNY_64BIT=0]'; qs.append(q2)
+    if tier == 'thorough':      # second opinion: the small obligations again with CBMC's built-in SAT solver instead of kissat
+        for q in list(qs):
+            if q.name.startswith(('sbox:', 'round:', 'sched:skinny64-64', 'sched:skinny128-128')) and not q.name.endswith(':w32'):
+                q2 = copy.copy(q); q2.name = q.name + ':builtin-solver'; q2.solver = 'builtin'; q2.desc = q.desc + ' [decided again by CBMC\'s built-in SAT solver]'; qs.append(q2)
     return dict(
         queries=qs, level='model_checking', pre=[pre_model_selftest],
         functions=F128 + F64,
